@@ -746,7 +746,7 @@ def reduce_request(a, m):
         return ",".join(str(int(x)) for x in xs) or "-"
 
     return (f"{ap} {csv(a.shape)} {csv(a.strides)} {a.itemsize} {mp} {csv(m.shape)} {csv(m.strides)} {m.itemsize} "
-            f"{int(m.offset)} {int(a.flags.c_contiguous)} {int(a.flags.f_contiguous)} {int(m.flags.f_contiguous)}")
+            f"{int(m.offset)} {int(a.flags.c_contiguous)} {int(a.flags.f_contiguous)}")
 
 
 def run_rebuild(vspec, scratch):
@@ -769,16 +769,19 @@ def worker_view_case(vspec, scratch, rebuilt=None):
         return
     cons, args = _reduce_memmap_backed(a, bm)
     offset, order, shape, strides, tbl = args[3], args[4], args[5], args[6], args[7]
-    corr("reduce", case, "reduce " + reduce_request(a, bm),
-         f"offset={int(offset)} order={order} strides={'None' if strides is None else (','.join(str(int(s)) for s in strides) or '-')} "
-         f"tbl={'None' if tbl is None else int(tbl)}")
+    reduce_impl = (f"offset={int(offset)} order={order} strides="
+                   f"{'None' if strides is None else (','.join(str(int(s)) for s in strides) or '-')} "
+                   f"tbl={'None' if tbl is None else int(tbl)}")
     # oracle: rebuild in an isolated process (it may read outside the mapping) and compare the element bytes
     want = hashlib.sha1(elem_bytes(a)).hexdigest()
     p = rebuilt if rebuilt is not None else run_rebuild(vspec, scratch)
     if p.returncode != 0:
+        corr("reduce", case, "reduce " + reduce_request(a, bm), reduce_impl + " maps=?")
         fail(sig, case, dict(outcome="rebuild process died", returncode=p.returncode, stderr=p.stderr[-200:]))
         return
     got = json.loads(p.stdout.strip().splitlines()[-1])
+    # `maps`: the number of bytes of the buffer the rebuilt strided view sits on (observed on the rebuilt array)
+    corr("reduce", case, "reduce " + reduce_request(a, bm), reduce_impl + " maps=" + str(got.get("maps", "?")))
     if got.get("error"):
         fail(sig, case, dict(outcome="rebuild raised", error=got["error"]))
     elif got["sha1"] != want or got["shape"] != list(a.shape) or got["dtype"] != str(a.dtype):
@@ -793,7 +796,8 @@ def rebuild_main(vspec_json, scratch):
     cons, args = _reduce_memmap_backed(a, backing(a))
     try:
         r = cons(*args)
-        out = dict(sha1=hashlib.sha1(elem_bytes(r)).hexdigest(), shape=list(r.shape), dtype=str(r.dtype))
+        maps = "-" if args[6] is None else int(backing(r).nbytes)
+        out = dict(sha1=hashlib.sha1(elem_bytes(r)).hexdigest(), shape=list(r.shape), dtype=str(r.dtype), maps=maps)
     except Exception as e:  # noqa: BLE001
         out = dict(error=repr(e)[:200])
     print(json.dumps(out))
